@@ -474,6 +474,9 @@ func sweepFamilies() []sweepFamily {
 	fams = append(fams, family{"decimal-float-exponent", 0, len(dfloatExps) - 1, func(n int) []ev.Event {
 		return []ev.Event{{K: ev.DFloat, DF: compact_float.DFloatValue(dfloatExps[n], 1234567890123456789)}}
 	}})
+	fams = append(fams, family{"decimal-float-exponent/coefficient-with-trailing-zeros", 0, len(dfloatExps) - 1, func(n int) []ev.Event {
+		return []ev.Event{{K: ev.DFloat, DF: compact_float.DFloatValue(dfloatExps[n], 1230000)}, {K: ev.DFloat, DF: compact_float.DFloatValue(dfloatExps[n], -10)}}
+	}})
 	customCodes := []uint64{0, 1, 255, 256, 65535, 65536, 1<<32 - 2, 1<<32 - 1, 1 << 32, 1<<32 + 1, 1 << 40, 1<<63 - 1, 1 << 63, 1<<64 - 1}
 	fams = append(fams, family{"custom-binary-type-code", 0, len(customCodes) - 1, func(n int) []ev.Event {
 		return []ev.Event{{K: ev.CustomBinary, U: customCodes[n], Bs: []byte{1, 2, 3}}}
